@@ -18,6 +18,20 @@ From FB Require Import Model.Tracker.
 Import ListNotations.
 Open Scope Z_scope.
 
+(* ---------- names for parts of Tracker.add / complete (used by specs and proofs) ---------- *)
+Definition lk (p : Z) (s : tstate) : list req := match lookup p s with Some rs => rs | None => [] end.
+(* the list after filing [f,t): recoverytracker.go:84-107 *)
+Definition merged (f t : Z) (rs : list req) : list req :=
+  if existsb (overlaps f t) rs then map (widen f t) rs else rs ++ [(f, t)].
+Definition ends_at (t : Z) (r : req) : bool := snd r =? t.
+(* the partition an operation addresses / overwrites with a received snapshot *)
+Definition op_part (o : top) : option Z :=
+  match o with
+  | Add p _ _ | Update p _ _ | Complete p _ | Receive p _ => Some p
+  | CancelAll | ReceiveGarbage => None
+  end.
+Definition recv_part (o : top) : option Z := match o with Receive p _ => Some p | _ => None end.
+
 (* ---------- strconv.Atoi followed by int32(...) ---------- *)
 Definition is_digit (c : Z) : bool := (48 <=? c) && (c <=? 57).
 
@@ -96,6 +110,13 @@ Fixpoint xrun (s : tstate) (ops : list xop) : tstate * list xres :=
       let r := xstep s o in
       let '(s', rs) := xrun (xs r) ops' in
       (s', r :: rs)
+  end.
+
+(* the partition a call overwrites with a received snapshot *)
+Definition recv_key (o : xop) : option Z :=
+  match o with
+  | XMsg mt key (Some _) => if mt =? 0 then Some (atoi_key key) else None
+  | _ => None
   end.
 
 (* ---------- the replica side ---------- *)
